@@ -1,4 +1,19 @@
+//! vf-index: checks of the index crates (C10 B-tree, C11 BM25, C12 HNSW).
+mod c10;
+
+use vf_core::Runner;
+
 fn main() {
-    eprintln!("vf-index: not built yet");
-    std::process::exit(2);
+    let prop = std::env::args().nth(1).unwrap_or_default();
+    match prop.as_str() {
+        "C10" => {
+            let mut r = Runner::from_env("C10", "exploration");
+            c10::run(&mut r);
+            r.finish();
+        }
+        other => {
+            eprintln!("usage: vf-index <C10|C11|C12> <quick|thorough|replay FILE> (got {other:?})");
+            std::process::exit(2);
+        }
+    }
 }
